@@ -3,6 +3,7 @@
 package core
 
 import (
+	"io"
 	"crypto/sha256"
 	"encoding/hex"
 	"encoding/json"
@@ -334,6 +335,52 @@ func (r *Run) Finish() int {
 		return 1
 	}
 	return 0
+}
+
+// Partial is what a worker process of another binary hands back to the run that owns the evidence.
+type Partial struct {
+	States, Transitions, Traces, Evals, Nontrivial int64
+	Outcomes                                       map[string]int64
+	Violations                                     []PartialViolation
+}
+
+type PartialViolation struct {
+	Sig, Detail, Mode string
+	Case              json.RawMessage
+	Count             int64
+}
+
+// ExportPartial writes everything the run has accumulated as one JSON document.
+func (r *Run) ExportPartial(w io.Writer) error {
+	r.mu.Lock()
+	defer r.mu.Unlock()
+	p := Partial{States: r.States.Load(), Transitions: r.Transitions.Load(), Traces: r.Traces.Load(), Evals: r.Evals.Load(),
+		Nontrivial: int64(len(r.nontrivial)) + r.ntByConstruction, Outcomes: r.outcomes}
+	for s, v := range r.viol {
+		p.Violations = append(p.Violations, PartialViolation{s, v.Detail, v.Mode, v.Case, v.Count})
+	}
+	return json.NewEncoder(w).Encode(p)
+}
+
+// ImportPartial merges a worker's partial result; modes are suffixed so that replay can dispatch.
+func (r *Run) ImportPartial(p Partial, modeSuffix string) {
+	r.States.Add(p.States)
+	r.Transitions.Add(p.Transitions)
+	r.Traces.Add(p.Traces)
+	r.Evals.Add(p.Evals)
+	r.NontrivialN(p.Nontrivial)
+	for k, n := range p.Outcomes {
+		r.OutcomeN(k, n)
+	}
+	r.mu.Lock()
+	defer r.mu.Unlock()
+	for _, v := range p.Violations {
+		if old := r.viol[v.Sig]; old != nil {
+			old.Count += v.Count
+			continue
+		}
+		r.viol[v.Sig] = &violation{Finding: Finding{Sig: v.Sig, Detail: v.Detail}, Case: v.Case, Mode: v.Mode + modeSuffix, Count: v.Count}
+	}
 }
 
 func oneLine(s string) string {
